@@ -62,9 +62,10 @@ def agg_of_lanes(lanes, size):
 
 
 class PanicSite(object):
-    __slots__ = ('kind', 'cond', 'fn', 'line', 'stack', 'detail', 'file')
+    __slots__ = ('kind', 'cond', 'fn', 'line', 'stack', 'detail', 'file', 'dirty')
 
-    def __init__(self, kind, cond, fn, file, line, stack, detail):
+    def __init__(self, kind, cond, fn, file, line, stack, detail, dirty=False):
+        self.dirty = dirty      # some caller-visible object (pointee of an argument) may already have been written on the path to this site
         self.kind = kind
         self.cond = cond
         self.fn = fn
@@ -103,6 +104,7 @@ class Interp(object):
         self.pathcond = []
         self.stack = []
         self.opaque_calls = []   # (callee d, deps set, caller key)
+        self.marker = None       # object id of the argument-write marker (set by the harness once the symbolic arguments are built)
         self.effects = []        # effect log for R-EFFSEQ: (name, args...)
         self.unknown_callees = {}
         self.steps = 0
@@ -296,6 +298,10 @@ class Interp(object):
     def write(self, obj, off, size, val):
         if size == 0:
             return
+        if self.marker is not None and obj.id != self.marker and getattr(obj, 'kind', None) == 'arg':
+            m = self.heap.get(self.marker)
+            if m is not None:
+                m.cells[0] = (1, const(1, 1))      # path-sensitive: the marker lives in the (forked / merged) heap
         if size is None or off is None:
             # value / place of a type whose layout is unknown (generic parameter): one opaque cell for the whole object
             old = obj.cells.get('opq')
@@ -1244,7 +1250,11 @@ class Interp(object):
         full = tm.b_and(cond, *self.pathcond)
         if full is FALSE:
             return
-        self.panics.append(PanicSite(kind, full, fr.body['d'], fr.body['file'], line, tuple(self.stack), detail))
+        dirty = False
+        if self.marker is not None:
+            m = self.heap.get(self.marker)
+            dirty = m is not None and 0 in m.cells
+        self.panics.append(PanicSite(kind, full, fr.body['d'], fr.body['file'], line, tuple(self.stack), detail, dirty))
 
     # ---------------------------------------------------------------- statements
     def stmt(self, fr, s):
